@@ -929,8 +929,23 @@ pub fn scionpath_cell(cell: &Value) -> (Obs, Vec<Value>) {
                         format!("reversed ScionPath differs from one built from its own parts (fingerprint {} cp_fingerprint {} expiration {})", fresh.fingerprint() == sp1.fingerprint(), fresh.cp_fingerprint() == sp1.cp_fingerprint(), fresh.expiration() == sp1.expiration()),
                     ));
                 }
-                if sp1.next_hop().is_some() || sp1.metadata().map(|m| m.epic_auth.is_some()).unwrap_or(false) {
-                    // documented: next hop and EPIC authenticators do not survive; not part of the property
+                // "reversal also swaps ... metadata": the interface and note lists of the reversed path are
+                // the original lists in reverse order
+                let rev_ifs = |p: &ScionPath| p.metadata().and_then(|m| m.interfaces.as_ref()).map(|v| v.iter().map(|i| i.interface).collect::<Vec<_>>());
+                let rev_notes = |p: &ScionPath| p.metadata().and_then(|m| m.notes.clone());
+                let want_ifs = rev_ifs(&sp0).map(|mut v| {
+                    v.reverse();
+                    v
+                });
+                let want_notes = rev_notes(&sp0).map(|mut v| {
+                    v.reverse();
+                    v
+                });
+                if rev_ifs(&sp1) != want_ifs || rev_notes(&sp1) != want_notes {
+                    pvs.push(pv("Disagree:ScionPath.try_reverse:metadata-lists-not-reversed", "the interface / note lists of the reversed path are not the original lists in reverse order"));
+                }
+                if sp1.src_ia() != sp0.dst_ia() || sp1.dst_ia() != sp0.src_ia() {
+                    pvs.push(pv("Disagree:ScionPath.try_reverse:endpoints-not-exchanged", "source and destination ISD-AS are not exchanged by reversal"));
                 }
             }
             let mut sp2 = sp1.clone();
